@@ -268,6 +268,10 @@ fn direct_op(copy: &str, alg: &str, a: &[&str]) -> R {
         "straus_vt",
         "pippenger",
         "pre",
+        // extras: the point formulas of that copy
+        "double",
+        "add",
+        "sub",
     ];
     if !["serial", "avx2", "ifma"].contains(&copy) || !ALGS.contains(&alg) {
         return Err(BADREQ);
@@ -281,8 +285,19 @@ fn direct_op(copy: &str, alg: &str, a: &[&str]) -> R {
         StrausVt(Vec<Scalar>, Vec<Option<EdwardsPoint>>),
         Pippenger(Vec<Scalar>, Vec<Option<EdwardsPoint>>),
         Pre(PreArgs),
+        PointDouble(EdwardsPoint),
+        PointAdd(EdwardsPoint, EdwardsPoint, bool),
     }
     let job = match alg {
+        "double" => {
+            arity(a, 1)?;
+            Job::PointDouble(pt(a[0])?)
+        }
+        "add" | "sub" => {
+            arity(a, 2)?;
+            let (c, d) = (ced(a[0])?, ced(a[1])?);
+            Job::PointAdd(dec_ed(&c)?, dec_ed(&d)?, alg == "sub")
+        }
         "mul" => {
             arity(a, 2)?;
             let c = ced(a[0])?;
@@ -328,6 +343,8 @@ fn direct_op(copy: &str, alg: &str, a: &[&str]) -> R {
                     &x.dyn_scalars,
                     &x.dyn_points,
                 ),
+                Job::PointDouble(p) => m::edwards_double(p).map(Some),
+                Job::PointAdd(p, q, sub) => m::edwards_add(p, q, *sub).map(Some),
             }
         }};
     }
@@ -347,6 +364,8 @@ fn direct_op(copy: &str, alg: &str, a: &[&str]) -> R {
                     &x.dyn_scalars,
                     &x.dyn_points,
                 ),
+                Job::PointDouble(p) => Some(vh::edwards_double(p)),
+                Job::PointAdd(p, q, sub) => Some(if *sub { p - q } else { p + q }),
             })
         }
         "avx2" => {
@@ -538,6 +557,19 @@ pub fn ed_op(op: &str, a: &[&str]) -> R {
                 Ok(c) => ok_hex(c.as_bytes()),
                 Err(_) => Err(Fail::Err),
             };
+        }
+        // extra: build a point from raw coordinates (hook), no validity check
+        "from_coords" => {
+            arity(a, 4)?;
+            let c = [
+                hx::<32>(a[0])?,
+                hx::<32>(a[1])?,
+                hx::<32>(a[2])?,
+                hx::<32>(a[3])?,
+            ];
+            let p = vh::edwards_from_coords(&c);
+            push_ed(&mut o, &p);
+            push_bool(&mut o, vh::edwards_is_valid(&p));
         }
         // `ed.compress P`: used by --ct; also served here
         "compress" => {
